@@ -44,9 +44,8 @@ fn stub_with_capacity(n: usize) -> String {
 }
 fn mk_vfs(text: &str) -> (Vfs, FileId) {
     let (t, m) = LineMap::normalize(doc_string(text));
-    let mut files = Slab::new();
-    let k = files.insert((Arc::<str>::from(t), Arc::new(m)));
-    (Vfs { files, change: Change::default() }, FileId(k as u32))
+    // built with a vec! literal: a slab filled through insert/push costs CBMC > 400 s per splice instead of 20 s (measured)
+    (Vfs { files: Slab { entries: vec![(Arc::<str>::from(t), Arc::new(m))] }, change: Change::default() }, FileId(0))
 }
 /// the line map equals the reference table of the text
 fn table_eq(m: &LineMap, starts: &[u32], len: u32, diffs: &[(u32, &[(u32, u32)])]) -> bool {
@@ -232,7 +231,8 @@ def splice_cases(doc, tier):
         for k, (s, e) in enumerate(pairs):
             out.append((s, e, inss[k % len(inss)]))
         return out
-    return [(s, e, ins) for (s, e) in pairs for ins in inss]
+    # thorough: every boundary pair, two inserted texts each (rotating through the five)
+    return [(s, e, inss[(2 * k + j) % len(inss)]) for k, (s, e) in enumerate(pairs) for j in range(2)]
 
 
 def h_splice(idx, doc, cases, chunk):
@@ -246,6 +246,7 @@ def h_splice(idx, doc, cases, chunk):
         let (mut vfs, file) = mk_vfs(DOC);
         let r = vfs.change_file_content(file, Some(TextRange::new(TextSize::from(%(s)d), TextSize::from(%(e)d))), %(ins)s);
         assert!(r.is_ok(), "K5: an edit at valid offsets is applied");
+        std::mem::forget(r);
         assert!(&*vfs.content_for_file(file) == %(new)s, "K5: server text == strip_cr(client_apply(client text, range, inserted text))");
         assert!(table_eq(&vfs.line_map_for_file(file), %(starts)s, %(len)s, %(diffs)s), "K5: the stored line map is the one of the new text");
         assert!(vfs.change.calls.len() == 1 && vfs.change.calls[0].0 == file && &*vfs.change.calls[0].1 == %(new)s, "K5: the analysis is told the same text exactly once");
@@ -260,7 +261,8 @@ def h_splice(idx, doc, cases, chunk):
         assert!(r.is_err() && &*vfs.content_for_file(file) == DOC && vfs.change.calls.is_empty(), "K5: a delete range inside a character is rejected and changes nothing");
         std::mem::forget(r);
 ''' % (ms, me)
-    body += '''
+    if chunk == 0:
+      body += '''
     {
         let (mut vfs, file) = mk_vfs(DOC);
         let r = vfs.change_file_content(file, Some(TextRange::new(TextSize::from(%(n)d), TextSize::from(%(n1)d))), "x");
@@ -269,6 +271,7 @@ def h_splice(idx, doc, cases, chunk):
         assert!(&*vfs.content_for_file(file) == DOC && vfs.change.calls.is_empty(), "K5: a rejected edit changes nothing");
 %(midchar)s        let full = vfs.change_file_content(file, None, "a\\r\\nb");
         assert!(full.is_ok() && &*vfs.content_for_file(file) == "a\\nb", "K5: a full-text replacement stores the new text without CR");
+        std::mem::forget(full);
     }''' % {'n': n, 'n1': n + 1, 'midchar': midchar}
     return '''
 #[kani::proof]
@@ -358,18 +361,20 @@ def generate(prop, tier, max_chars=None):
         for i, d in enumerate(docs_cr):
             text += h_c13_cr(i, d)
             hs.append({'name': 'c13_cr_d%d' % i, 'doc': d, 'what': 'K1 with carriage returns (CRLF, lone CR, CR at start/end)'})
+        pdocs = docs if tier == 'thorough' else ['', 'a\n', '\na', '\u00df', '\u211da', '\U0001F4A3', '\U0001F4A3\U0001F4A3', 'a\U0001F4A3', '\U0001F4A3\n', '\n\U0001F4A3']
         for i, d in enumerate(docs):
+            if d not in pdocs:
+                continue
             text += h_pos(i, d, 'c13')
             hs.append({'name': 'c13_pos_d%d' % i, 'doc': d, 'what': 'K3/T2: every valid LSP range (symbolic over u32^4, assumed valid) converts to the client offsets'})
-        sdocs = docs if tier == 'thorough' else [d for d in docs if len(d) == 2 or d in ('', '\n')]
+        sdocs = [d for d in docs if len(d) <= 2] if tier == 'thorough' else ['', 'a\n', '\u00df\U0001F4A3', '\U0001F4A3a', '\n\n', 'aa']
         for i, d in enumerate(docs):
             if d not in sdocs:
                 continue
             cases = splice_cases(d, 'quick' if tier == 'quick' else 'thorough')
-            per = 6
-            for ch in range(0, len(cases), per):
-                text += h_splice(i, d, cases[ch:ch + per], ch // per)
-                hs.append({'name': 'c13_splice_d%d_%d' % (i, ch // per), 'doc': d, 'what': 'K5: %d concrete edits through the real change_file_content + normalize' % len(cases[ch:ch + per])})
+            for ch in range(len(cases)):
+                text += h_splice(i, d, cases[ch:ch + 1], ch)
+                hs.append({'name': 'c13_splice_d%d_%d' % (i, ch), 'doc': d, 'what': 'K5: concrete edit %r through the real change_file_content + normalize%s' % (cases[ch], ' (+ rejected ranges, full-text replacement)' if ch == 0 else '')})
     elif prop == 'C15':
         for i, d in enumerate(docs):
             text += h_pos(i, d, 'c15')
